@@ -405,3 +405,30 @@ package mcp
 //@   callspec writer.Write
 //@     counted writes
 //@     modifies *
+
+// ---------------------------------------------------------------------------
+// C12 — registries: each operation is one critical section (lockops counts the
+// lock acquisitions made by the function itself), and its effect on the
+// registry is stated relative to the registry as found when the lock was taken
+// (atlock), since other goroutines may change it until then.
+
+//@ func toolManager.registerTool
+//@   ensures[C12 one-critical-section] lockops == old(lockops) + 1
+//@   ensures[C12 entry-replaced-with-one-store] tool != nil && tool.Name != "" ==> (tool.Name in m.tools) && m.tools[tool.Name].Tool == tool && m.tools[tool.Name].Handler == handler
+//@   ensures[C12 other-entries-untouched] forall k string :: (tool == nil || k != tool.Name) ==> ((k in m.tools) <==> atlock(k in m.tools)) && m.tools[k] == atlock(m.tools[k])
+//@ func toolManager.getTool
+//@   ensures[C12 one-critical-section] lockops == old(lockops) + 1
+//@   ensures[C12 absent-name-not-found] !atlock(name in m.tools) ==> !ret1 && ret == nil
+//@   ensures[C12 present-name-found] atlock(name in m.tools) ==> ret1 && ret == atlock(m.tools[name]).Tool
+//@ func toolManager.getTools
+//@   ensures[C12 one-read-locked-snapshot] lockops == old(lockops) + 1
+//@   loop 1 invariant[C12] len(tools) <= yielded(1)
+//@   ensures[C12 no-phantom-or-duplicate-entry] len(result) <= atlock(len(m.tools))
+//@ func toolManager.unregisterTools
+//@   ensures[C12 one-critical-section] lockops <= old(lockops) + 1
+//@   loop 1 invariant[C12] 0 <= unregisteredCount && unregisteredCount <= rangeindex + 1 && rangeindex < len(names)
+//@   ensures[C12 count-bounded-by-names] 0 <= result && result <= len(names)
+//@ func promptManager.registerPrompt
+//@   ensures[C12 one-critical-section] lockops == old(lockops) + 1
+//@ func resourceManager.registerResource
+//@   ensures[C12 one-critical-section] lockops == old(lockops) + 1
